@@ -6,7 +6,7 @@ import os
 import common
 import tlc
 
-VARS = "s, r, w, c2r, c2s, rinc, used, nf, o, ev, viol, hist"
+VARS = "s, r, w, c2r, c2s, rinc, used, nf, black, inj, o, ev, viol, hist"
 
 
 def tla(v):
@@ -39,7 +39,7 @@ def mkcfg(**kw):
     return c
 
 
-def write_mc(name, cfg, maxfaults, cmds, known, outdir, emit=True, invariant="OnlyKnown", extra_cfg=""):
+def write_mc(name, cfg, maxfaults, cmds, known, outdir, emit=True, invariant="OnlyKnown", extra_cfg="", blackouts=(), injects=()):
     os.makedirs(outdir, exist_ok=True)
     # fsreqs / pre in TLA+ form
     mod = os.path.join(outdir, "MC_%s.tla" % name)
@@ -51,13 +51,17 @@ def write_mc(name, cfg, maxfaults, cmds, known, outdir, emit=True, invariant="On
         f.write("MaxFaults == %d\n" % maxfaults)
         f.write("Cmds == %s\n" % tla(set(tuple(c) for c in cmds)))
         f.write("KnownSigs == %s\n" % tla(set(known)))
+        f.write("Blackouts == %s\n" % tla(set(blackouts)))
+        f.write("Injects == %s\n" % tla([{"ch": i["ch"], "pdu": model_pdu(i["pdu"], cfg)} for i in injects]))
         f.write("VARIABLES %s\n" % VARS)
         f.write("INSTANCE Cfdp\n====\n")
     cfgp = os.path.join(outdir, "MC_%s.cfg" % name)
     with open(cfgp, "w") as f:
-        f.write("SPECIFICATION Spec\nINVARIANT %s\nVIEW View\nCHECK_DEADLOCK FALSE\n" % invariant)
         if emit:
-            f.write("ACTION_CONSTRAINT EmitEdge\n")
+            # no invariant: the exploration always completes; unknown model violations are printed
+            f.write("SPECIFICATION Spec\nVIEW View\nCHECK_DEADLOCK FALSE\nACTION_CONSTRAINT EmitAll\n")
+        else:
+            f.write("SPECIFICATION Spec\nINVARIANT %s\nVIEW View\nCHECK_DEADLOCK FALSE\n" % invariant)
         f.write(extra_cfg)
     return mod, cfgp
 
@@ -65,9 +69,14 @@ def write_mc(name, cfg, maxfaults, cmds, known, outdir, emit=True, invariant="On
 ACTMAP = {"S_Send": "S_Send", "R_Send": "R_Send", "S_Timeout": "S_Timeout", "R_Timeout": "R_Timeout"}
 
 
-def step_json(t):
+def step_json(t, injects=()):
     a, ch, n, c = t
     d = {"a": a}
+    if a == "Inject":
+        d["ch"] = ch
+        d["pdu"] = injects[n - 1]["pdu"]
+    if a == "Blackout":
+        d["ch"] = ch
     if a in ("Deliver", "Drop", "Dup"):
         d["ch"] = ch
         d["i"] = n
@@ -78,9 +87,40 @@ def step_json(t):
     return d
 
 
-def run_model(name, cfg, maxfaults, cmds, known, workdir, workers=8, timeout=3600, emit=True, xmx="12g"):
+def model_pdu(p, cfg):
+    """the record the model puts on the link for an injected PDU (same shape as the projector's)"""
+    k = p["k"]
+    n = len(cfg["file"])
+    d = dict(p)
+    d["hdr"] = True
+    if k == "NAK":
+        d["dir"] = "c2s"
+        d["fits"] = len(p["reqs"]) * 8 + 5 <= cfg["seg"] * cfg["unit"]
+    elif k == "Data":
+        d["dir"] = "c2r"
+        d["len"] = max(0, min(p["off"] + p["len"], n) - p["off"])
+        d["ok"] = True
+        d["inside"] = True
+        d["fits"] = d["len"] <= cfg["seg"]
+    elif k == "EOF":
+        d.update({"dir": "c2r", "size": n, "ckok": True, "loc": False, "ok": True})
+    elif k == "Metadata":
+        d.update({"dir": "c2r", "size": n, "closure": cfg["closure"], "nreqs": len(cfg["fsreqs"]), "ok": True})
+    elif k == "ACK":
+        d.update({"dir": "c2r" if p["of"] == "Finished" else "c2s", "sub": 1 if p["of"] == "Finished" else 0, "status": "Active"})
+    elif k == "Finished":
+        d.update({"dir": "c2s", "resp": [], "loc": False})
+    elif k == "Prompt":
+        d["dir"] = "c2r"
+    elif k == "KeepAlive":
+        d["dir"] = "c2s"
+    return d
+
+
+def run_model(name, cfg, maxfaults, cmds, known, workdir, workers=8, timeout=3600, emit=True, xmx="12g", blackouts=(), injects=()):
     """returns (TlcResult, maximal scripts as lists of step dicts)"""
-    mod, cfgp = write_mc(name, cfg, maxfaults, cmds, known, os.path.join(workdir, "mc"), emit=emit)
+    mod, cfgp = write_mc(name, cfg, maxfaults, cmds, known, os.path.join(workdir, "mc"), emit=emit,
+                         blackouts=blackouts, injects=injects)
     r = tlc.run(mod, cfgp, os.path.join(workdir, "tlc-" + name), workers=workers, timeout=timeout, xmx=xmx,
                 extra=[])
     paths = []
@@ -102,5 +142,5 @@ def maximal(paths):
     return out
 
 
-def scripts_of(name, cfg, paths):
-    return [{"id": "%s-%d" % (name, i), "cfg": cfg, "path": [step_json(t) for t in p]} for i, p in enumerate(paths)]
+def scripts_of(name, cfg, paths, injects=()):
+    return [{"id": "%s-%d" % (name, i), "cfg": cfg, "path": [step_json(t, injects) for t in p]} for i, p in enumerate(paths)]
